@@ -1,7 +1,7 @@
 (* The reader model and the count model meet: a profile the reader accepts, handed to the count model the way
    Election.__init__ reads it, satisfies the hypotheses of the whole-run theorems (wf_profile, wf_profile_m). *)
 From Coq Require Import ZArith List Bool String Lia.
-From Droop Require Import Proofs.QuotaCount Proofs.ForwardCount Proofs.WinnersCfer Proofs.MajorityCfer Proofs.WinnersBatch Proofs.WinnersZero Proofs.WinnersCferBatch.
+From Droop Require Import Proofs.QuotaCount Proofs.ForwardCount Proofs.WinnersCfer Proofs.MajorityCfer Proofs.WinnersBatch Proofs.WinnersZero Proofs.WinnersCferBatch Proofs.QpqSeats Proofs.QpqWinners.
 From Droop Require Import Model.KernelBase Model.Str Model.Arith Model.State Model.Prims Model.Prelude Model.Profile Model.ProfileSpec
   Model.Election Model.EndToEnd Proofs.Zlike Proofs.Gregory Proofs.Conserve Proofs.Forward Proofs.ParserLemmas Proofs.ConserveCount
   Proofs.MeekRun Proofs.MeekKfRun Proofs.MeekPrfRun Proofs.MeekCount Proofs.Terminate Proofs.TerminateMeek Proofs.Winners Proofs.Majority.
@@ -223,6 +223,16 @@ Proof.
   3: apply (count_winners_cfer_any A S ZL cfg Hm Hex ltac:(lia) Hns _ fuel s k (proj1 (accepted_file_is_wf text p Hp)) ltac:(congruence) He Hk).
   - apply (count_winners_wigm_any A S ZL cfg Hm Hex ltac:(lia) Hns _ fuel s k (proj1 (accepted_file_is_wf text p Hp)) ltac:(congruence) He Hk).
   - apply (count_winners_prf_any A S ZL cfg Hm Hex ltac:(lia) Hns _ fuel s k (proj1 (accepted_file_is_wf text p Hp)) ltac:(congruence) He Hk).
+Qed.
+
+(* QPQ, every arithmetic, equal-rank lines included: at most [seats] winners, exactly min(seats, candidates not withdrawn) *)
+Theorem accepted_qpq : 0 <= cf_nseats cfg ->
+  forall text p fuel s k, parse_file text = Ok p ->
+  exec (@crashed A) fuel (count_cmd A cfg RQpq) (init_state A cfg (to_count_profile p)) = Some (s, k) -> k <> Abort ->
+  nlen (electeds A s) <= cf_nseats cfg /\ nlen (electeds A s) = Z.min (cf_nseats cfg) (nlen (eligibles A s)).
+Proof.
+  intros Hns text p fuel s k Hp He Hk. pose proof (proj1 (proj1 (accepted_file_is_wf text p Hp))) as Hnd.
+  split; [exact (count_seats_qpq A cfg _ fuel s k Hns Hnd He Hk)|exact (count_winners_qpq A cfg _ fuel s k Hns Hnd He Hk)].
 Qed.
 
 Theorem accepted_majority_cfer : exact A = false -> R (epsilon A) = 1 -> cf_nseats cfg = 1 ->
